@@ -1141,6 +1141,39 @@ Definition norm_reload (name : str) (chunks : list str) (fresh : str) : res str 
   | Some t => norm_set t
   end.
 
+(* ------------------------------------------------------------------ *)
+(* the plugin API of src/callbacks.py (PluginMixin).
+   setRegistryValue(name, value, channel, network): the WRITE path descends exactly:
+       if network: group = group.get(':' + network);  if channel: group = group.get(channel);  group.setValue(value)
+   registryValue(name, channel, network): the READ path resolves leniently with getSpecific(): a channel that is
+   not a channel name and a network without a live Irc object (world.getIrc is None: [live] is an input) are
+   dropped, then the three-way rule applies.  Network nodes are named ':' + network. *)
+Definition net_key (n : str) : str := COLON :: n.
+Definition reg_write_addr (net chan : str) : addr :=
+  match net, chan with
+  | [], [] => AG
+  | [], _ => AC chan
+  | _, [] => AN (net_key net)
+  | _, _ => ANC (net_key net) chan
+  end.
+Definition reg_read_addr (live : list str) (net chan : str) : addr :=
+  let chan' := if nonempty chan && is_channel chan then chan else [] in
+  let net' := if nonempty net && existsb (fun l => seq_eqb (lower l) (lower net)) live then net else [] in
+  reg_write_addr net' chan'.
+Inductive regop : Type :=
+| RWrite (net chan : str) (v : pv)       (* plugin.setRegistryValue(var, v, channel=chan, network=net) *)
+| RRead (net chan : str).                (* plugin.registryValue(var, channel=chan, network=net) *)
+Definition regop_top (live : list str) (o : regop) : top pv :=
+  match o with
+  | RWrite n c v => OSetValue (reg_write_addr n c) v
+  | RRead n c => OGet (reg_read_addr live n c)
+  end.
+Definition gRegop (v : value) : regop :=
+  match gN (nth_v 0 v) with
+  | 0 => RWrite (gS (nth_v 1 v)) (gS (nth_v 2 v)) (gPV (nth_v 3 v))
+  | _ => RRead (gS (nth_v 1 v)) (gS (nth_v 2 v))
+  end.
+
 (* the width NormalizedString.serialize asks textwrap for: max(COLS - (len(name) + EXTRA), MIN) (constants
    regenerated; MIN = 0 when the source has no max()).  textwrap.wrap raises ValueError for a width <= 0
    and registry.close() only logs the exception: the value line is then NOT WRITTEN. *)
@@ -1167,6 +1200,7 @@ Definition norm_save_reload : str -> list str -> str -> res str := norm_reload_w
    5 text             -> open_registry text
    6 (kind dflt init ops) -> outcomes of the history on the tree
    7 (decls gens) -> per generation: the saved lines and the values read, or the error
+   10 (kind dflt init live ops) -> plugin API history (setRegistryValue / registryValue) on the tree
    9 (decls gens) -> like 7 with timestamps, reset, save and reload operations
    8 (name chunks fresh text value) -> NormalizedString: wrapped file text, its open_registry, the reloaded value,
      norm_set text, the text handed to textwrap for value *)
@@ -1191,6 +1225,12 @@ Definition run (v : value) : value :=
          let t0 := mktree pv (gPV (nth_v 2 p)) [] [] in
          let '(_, rs) := run_ops pv (k_reparse k dflt) (k_settext k) t0 (map gOp (gL (nth_v 3 p))) in
          L (map (vR vPV) rs)
+  | 10 => let k := gKind (nth_v 0 p) in
+          let dflt := gPV (nth_v 1 p) in
+          let t0 := mktree pv (gPV (nth_v 2 p)) [] [] in
+          let live := gLS (nth_v 3 p) in
+          let '(_, rs) := run_ops pv (k_reparse k dflt) (k_settext k) t0 (map (fun o => regop_top live (gRegop o)) (gL (nth_v 4 p))) in
+          L (map (vR vPV) rs)
   | 9 => L (map (vR (fun r : list (str * str) * list pv => L [L (map vKV (fst r)); L (map vPV (snd r))]))
               (tgenerations (map gDecl (gL (nth_v 0 p))) [] (map (fun g => map gTop2 (gL g)) (gL (nth_v 1 p)))))
   | 8 => let name := gS (nth_v 0 p) in
